@@ -75,6 +75,9 @@ class C03(PureCheck):
         chars = [b"a", b"Z", b" ", "é".encode(), "日".encode(), "😀".encode(), b"~", b"0"]
         nstream = 20000 if tier == "quick" else 240000
         seen = set()
+        # fixed witnesses of the recorded finding (escape prefix followed by a non-ASCII byte)
+        for enc in encs:
+            yield {"op": "stream", "k1": [27, 91], "k2": [0xC3, 0xA9] if enc == "utf8" else [0xE9], "enc": enc}
         for k in range(nstream):
             enc = "utf8" if k % 3 == 0 else encs[k % 3]
             k1 = rng.choice(tabseqs) if rng.random() < 0.8 else rng.choice(chars)
